@@ -4,6 +4,8 @@ import Driver.C10
 import Driver.C08
 import Driver.C12
 import Driver.C19
+import Driver.C03
+import Driver.C07
 /-
   kdriver: one request per line on stdin, `model<TAB>spec` per line on stdout.
   Anything it cannot parse is answered `bad-op<TAB>bad-op` (never a default value).
@@ -21,6 +23,9 @@ def dispatch (line : String) : String :=
       else if op.startsWith "it." then Driver.C08.handle (op.drop 3).toString args
       else if op.startsWith "pi." then Driver.C12.handle (op.drop 3).toString args
       else if Driver.C19.owns op then Driver.C19.handle op args
+      else if op.startsWith "str." then Driver.C03.handle (op.drop 4).toString args
+      else if op.startsWith "chr." then Driver.C07.handleChr (op.drop 4).toString args
+      else if op.startsWith "chars." then Driver.C07.handleChars (op.drop 6).toString args
       else none
   match r with
   | some (m, s) => m ++ "\t" ++ s
